@@ -626,6 +626,11 @@ async fn run_scenario(scn: &Scenario, watchdog: Duration) -> Outcome {
         {
             rig.wire.heal();
         }
+        // nothing has been delivered or announced for a while although packets keep flowing (e.g. a
+        // chunk retransmitted over and over): stop faulting as well, so that the witnesses can decide
+        if !rig.wire.is_healed() && last_progress.elapsed() > Duration::from_secs(4) {
+            rig.wire.heal();
+        }
         let closed = rig.a.sctp.close_reason().is_some()
             || rig.b.sctp.close_reason().is_some()
             || sh.chans.lock().iter().any(|c| {
@@ -1373,6 +1378,24 @@ fn oracle_c12(o: &Outcome) -> (Verdict, bool) {
             );
         }
     }
+    // "a channel opened in-band appears at the peer": when the run ended with a stall witness (the
+    // healed network handed the same chunk to the peer over and over) and an in-band channel whose
+    // creator announced Open... never showed up at the peer at all, the OPEN was not acted on
+    if matches!(o.end, EndReason::StallRetry(_) | EndReason::StallQuiet(_)) {
+        for spec in o.scn.chans.iter().filter(|s| !s.negotiated) {
+            let appeared = o.chans.iter().any(|c| c.inband_peer && c.id == spec.id);
+            if !appeared {
+                return (
+                    Verdict::violated(
+                        format!("inband:never_appeared:label_len={},protocol_len={}:plan={}", spec.label.len().min(256), spec.protocol.len().min(256), plan_key(o)),
+                        format!("in-band channel {} (label {:?}, protocol {:?}) never appeared at the peer although the healed network kept delivering (stall witness: {:?})", spec.id, spec.label.chars().take(24).collect::<String>(), spec.protocol, o.end),
+                        json!({"spec": chan_json(spec), "plan": o.scn.plan.to_json(), "rules_fired": o.rules_fired, "end": format!("{:?}", o.end)}),
+                    ),
+                    nontrivial,
+                );
+            }
+        }
+    }
     match &o.end {
         EndReason::Complete | EndReason::Closed => (Verdict::Held, nontrivial),
         // C12 has no progress clause (that is C01's): the safety clauses above were evaluated on
@@ -1991,8 +2014,14 @@ fn all_chan_types() -> Vec<ChanSpec> {
                     max_lifetime_ms: life,
                     negotiated,
                     creator: 'a',
-                    label: format!("lbl-{id}-{}", if ordered { "o" } else { "u" }),
-                    protocol: if id % 4 == 0 { format!("proto{id}") } else { String::new() },
+                    // label / protocol lengths from empty (a 12-byte DCEP OPEN) to long and non-ASCII
+                    label: match id % 10 {
+                        4 => String::new(),
+                        6 => "é-ü-漢字-label".repeat(6),
+                        8 => "l".repeat(255),
+                        _ => format!("lbl-{id}-{}", if ordered { "o" } else { "u" }),
+                    },
+                    protocol: if id % 4 == 0 && id % 10 != 4 { format!("proto{id}") } else { String::new() },
                 });
             }
         }
